@@ -18,12 +18,14 @@ Definition slot_view (i : nat) (s : slot bytes bytes) : slot_obs :=
   | SKey _ _ k => (i, 2, key_bytes k)
   | SVal _ _ v => (i, 2, v)
   end.
-Fixpoint batch_view (b : batch bytes bytes) (i : nat) : list slot_obs :=
-  match b with
-  | [] => []
-  | None :: r => batch_view r (S i)
-  | Some s :: r => slot_view i s :: batch_view r (S i)
+(* bt_view lists a batch in tree order; the Go serialisation is in slot order *)
+Fixpoint sins (x : slot_obs) (l : list slot_obs) : list slot_obs :=
+  match l with
+  | [] => [x]
+  | y :: r => if Nat.leb (fst (fst x)) (fst (fst y)) then x :: l else y :: sins x r
   end.
+Definition batch_view (b : bt bytes bytes) (i : nat) : list slot_obs :=
+  fold_left (fun acc s => sins (slot_view (fst s) (snd s)) acc) (bt_view bytes bytes b i) [].
 
 (* tables in canonical order: sorted by the serialised position (height ‖ index) *)
 Definition table_obs := list (bytes * list slot_obs).
@@ -34,7 +36,7 @@ Fixpoint tins (kv : bytes * list slot_obs) (l : table_obs) : table_obs :=
               else if bytes_eqb (fst kv) (fst x) then kv :: r
               else x :: tins kv r
   end.
-Definition table_view (t : list (hpos * batch bytes bytes)) : table_obs :=
+Definition table_view (t : list (hpos * bt bytes bytes)) : table_obs :=
   fold_left (fun acc pb => tins (hpos_bytes (fst pb), batch_view (snd pb) 0) acc) t [].
 
 Definition slot_obs_eqb (a b : slot_obs) : bool :=
@@ -52,7 +54,7 @@ Fixpoint table_eqb (a b : table_obs) : bool :=
   | _, _ => false
   end.
 (* the cache is probed at given positions only: every probed position must agree *)
-Definition cache_agrees (t : list (hpos * batch bytes bytes)) (probes : table_obs) : bool :=
+Definition cache_agrees (t : list (hpos * bt bytes bytes)) (probes : table_obs) : bool :=
   let tv := table_view t in
   forallb (fun pr => match assoc bytes_eqb (fst pr) tv with
                      | Some s => lso_eqb s (snd pr)
